@@ -972,7 +972,11 @@ def nest_lifted_closures(modules, baseline=None, nested=None):
                 selfn = caller.args.args[0].arg if caller.args.args else None
                 inside = [n for n in ast.walk(caller) if isinstance(n, ast.Call) and isinstance(n.func, ast.Attribute) and n.func.attr == hdef.name
                           and isinstance(n.func.value, ast.Name) and n.func.value.id in (selfn, cls.name)]
-                if other or not inside or len(inside) != calls:
+                # plain references `self._helper` (a bound method handed to Thread(target=...), for example) inside the same caller are the closure by name
+                callfuncs_ = {id(n.func) for n in ast.walk(caller) if isinstance(n, ast.Call)}
+                refs_inside = [n for n in ast.walk(caller) if isinstance(n, ast.Attribute) and n.attr == hdef.name and isinstance(n.ctx, ast.Load) and id(n) not in callfuncs_
+                               and isinstance(n.value, ast.Name) and n.value.id == selfn and not h.static]
+                if (other != len(refs_inside)) or not (inside or refs_inside) or len(inside) != calls:
                     continue
                 if any(isinstance(n, ast.Name) and n.id == plain for n in ast.walk(caller)):
                     continue            # the plain name is taken in the caller
@@ -987,6 +991,15 @@ def nest_lifted_closures(modules, baseline=None, nested=None):
                         new.body = [Rename({hs: selfn}, {}).visit(x) for x in new.body]
                 for c in inside:
                     c.func = ast.copy_location(ast.Name(id=plain, ctx=ast.Load()), c.func)
+                if refs_inside:
+                    ids_ = {id(r_) for r_ in refs_inside}
+
+                    class _Ref(ast.NodeTransformer):
+                        def visit_Attribute(self, n):
+                            if id(n) in ids_:
+                                return ast.copy_location(ast.Name(id=plain, ctx=ast.Load()), n)
+                            return self.generic_visit(n)
+                    caller.body = [_Ref().visit(x) for x in caller.body]
                 pos = 1 if (caller.body and isinstance(caller.body[0], ast.Expr) and isinstance(caller.body[0].value, ast.Constant) and isinstance(caller.body[0].value.value, str)) else 0
                 caller.body.insert(pos, new)
                 cls.body.remove(hdef)
